@@ -1096,7 +1096,7 @@ func Run(tier, replay string) {
 	llvmoracle.Require()
 	c := &checker{rep: rep, tier: tier, rng: rand.New(rand.NewSource(mbt.Seed())), accepted: map[string]string{}, sigCount: map[string]int{}, recEvery: 3}
 	if tier == "thorough" {
-		c.recEvery = 8
+		c.recEvery = 12
 	}
 	if replay != "" {
 		c.recEvery = 1
@@ -1147,7 +1147,7 @@ func Run(tier, replay string) {
 	} else {
 		emit("exhaustive", map[string]string{"MaxBlocks": "2", "MaxInsts": "1"}, "", 0)
 		emit("exhaustive1", map[string]string{"Kinds": `{"func"}`, "MaxBlocks": "1", "MaxInsts": "2"}, "", 0)
-		emit("random", map[string]string{"Kinds": `{"func"}`, "MaxBlocks": "3", "MaxInsts": "2"}, "num=120", 5)
+		emit("random", map[string]string{"Kinds": `{"func"}`, "MaxBlocks": "3", "MaxInsts": "2"}, "num=60", 5)
 	}
 	// de-duplicate (simulation repeats shapes)
 	seen := map[string]bool{}
